@@ -14,6 +14,10 @@ from core import S
 class Abstain(Exception):
     pass
 
+class ExpectBibtexError(Exception):
+    """the documentation says this operation is an error of the style program (reported as such)"""
+    pass
+
 class Unk(object):
     def __init__(self, t): self.t = t
     def __repr__(self): return '<unknown %s>' % self.t
@@ -156,7 +160,8 @@ class Ref(object):
         elif b == 'int.to.chr$':
             n = self.pop(is_int)
             if not known(n): st.append(US)
-            elif not 0 <= n <= 127: raise Abstain('outside ASCII')
+            elif not 0 <= n <= 0x10FFFF: raise ExpectBibtexError('int.to.chr$ of %d' % n)
+            elif n > 127: raise Abstain('outside ASCII')
             else: st.append(chr(n))
         elif b == 'int.to.str$':
             n = self.pop(is_int); st.append(str(n) if known(n) else US)
@@ -266,6 +271,12 @@ def oracle_reference(arg, out):
     try:
         r = reference(arg[0])
     except Abstain:
+        return None
+    except ExpectBibtexError as e:
+        if out[0] == 2:
+            return '%s (not a character code) must be reported as a BibTeX error; a Python exception escaped instead' % e
+        if out[0] == 0:
+            return '%s (not a character code) must be reported as a BibTeX error; the run succeeded' % e
         return None
     except RecursionError:
         return None
